@@ -17,7 +17,9 @@ class C15(Prop):
     THEOREMS = ["C15_merge_into", "C15_merge_into_no_overlap", "C15_merge_many", "C15_merge_many_code_window", "C15_fill", "C15_fill_start_to_end",
                 "C15_fill_signal", "C15_tool_pipeline", "C15_tool_chunked", "C15_tool_run", "C15_outputs_agree", "C15_output_names", "C15_constants_from_source",
                 # the tool on written files: C01's whole-file theorem composed with C15_tool_run (Proofs/MergeToolFile.v)
-                "C15_file_view", "C15_tool_inputs_of_files", "C15_tool_files", "C15_tool_files_sizes_agree"]
+                "C15_file_view", "C15_tool_inputs_of_files", "C15_tool_files", "C15_tool_files_sizes_agree",
+                # the transport of values between harness and model loses nothing (Proofs/EighthsCodec.v)
+                "C15_value_codec_roundtrip"]
     RULE = ("library cases: merge_into over all 13 interval relations x zero/non-zero values (thorough: every pair with ends <= 4 "
             "x 16 value pairs, both orders, non-overlapping included); merge_sections_many on 1..5 streams whose breakpoints are drawn "
             "around bases 0, W-1, W, W+1, 2W-1, 2W, 2W+1, 3W (W = 50000) and at random, with values crossing one or several windows, "
